@@ -4,7 +4,7 @@
 From Coq Require Import List String Bool QArith Reals.
 Import ListNotations.
 Require Import Py ListsGen ConstGen AlgebraGen AlgebraSpec IfaceSpec Sem Term Poly Tactics PolyDomain PolySpec TermFacts PolyFacts TacticsFacts PolyDomainFacts EqFacts PolyKeepFacts.
-Require Import PyDict TermGen TermGenRename.
+Require Import PyDict PyLoop TermGen TermGenRename WrapGen WrapGenRename.
 
 (* a behaviour satisfies the renamed assumptions (and, under them, guarantees) exactly when the correspondingly renamed behaviour satisfied the originals *)
 Theorem C16 :
@@ -91,4 +91,11 @@ Theorem C16_code_rename_variable :
        wft' t -> PolyhedralTerm_rename_variable t s u = ret (term_rename_variable t s u).
 Proof. exact @rename_variable_eq. Qed.
 Print Assumptions C16_code_rename_variable.
+
+(* T1 tie: PolyhedralIoContract.rename_variables as translated from polyhedral_iocontract.py on this run IS the model function (a left fold of rename_variable over the mapping list, each step on the result of the previous one) *)
+Theorem C16_code_rename_variables :
+  forall (O : oracle) (c : pcontract O) (mappings : list (string * string)),
+       PolyhedralIoContract_rename_variables c mappings = poly_rename_variables O c mappings.
+Proof. exact @wrap_rename_variables_eq. Qed.
+Print Assumptions C16_code_rename_variables.
 
